@@ -487,6 +487,26 @@ def F32():
         shutil.rmtree(d, ignore_errors=True)
 
 
+def F33():
+    from zoneinfo import ZoneInfo
+    z = ZoneInfo("America/New_York")
+    a = datetime(2021, 11, 7, 1, 30, tzinfo=z)
+    b = a.replace(fold=1)
+    qa, qb = TimeQuery() <= a, TimeQuery() <= b
+    p = Point(time=b.astimezone(timezone.utc), fields={"a": 1})
+    if (qa == qb or hash(qa) == hash(qb)) and qa(p) != qb(p):
+        return f"TimeQuery() <= 01:30 (fold=0) and <= 01:30 (fold=1) compare equal / hash alike but answer {qa(p)} and {qb(p)} on the later instant"
+
+
+def F34():
+    from zoneinfo import ZoneInfo
+    z = ZoneInfo("America/New_York")
+    a = datetime(2021, 11, 7, 1, 30, tzinfo=z)
+    p = Point(time=a, fields={"a": 1})
+    if not (TimeQuery() == a)(p) or (TimeQuery() != a)(p):
+        return "TimeQuery() == t is False on a Point whose (zoned, repeated-hour) time is t"
+
+
 ALL = [k for k in list(globals()) if re.fullmatch(r"F\d+[a-c]?", k)]
 
 if __name__ == "__main__":
